@@ -23,7 +23,8 @@ ASSUMPTIONS = [
 
 @st.composite
 def case(draw):
-    spec = draw(econ.economy(zones=(1, 2), horizon=(2, 3)))
+    from harness import gen
+    spec = draw(econ.economy(zones=gen.size((1, 2), (1, 3)), horizon=(2, 3)))
     keys = draw(st.lists(st.integers(0, 11), min_size=6, max_size=14))
     return {'spec': spec, 'keys': keys}
 
